@@ -37,13 +37,15 @@ class Harness(object):
         self.by_clause = {}
 
     def binary(self, label, size):
-        if (label, size) not in self.files:
-            data = bytes((i * 7 + 13 * (ord(label) - 64) + size) % 251 for i in range(size))
-            path = os.path.join(self.tmp, "%s_%d.aplx" % (label, size))
+        """the binary `label` of this case: ONE file per label, rewritten whenever a case needs other contents - all cases run
+        on one controller, so anything remembered about a file (by name) across loads would serve stale contents"""
+        data = bytes((i * 7 + 13 * (ord(label) - 64) + size) % 251 for i in range(size))
+        path = os.path.join(self.tmp, "%s.aplx" % label)
+        if self.files.get(label) != size:
             with open(path, "wb") as f:
                 f.write(data)
-            self.files[(label, size)] = (path, data)
-        return self.files[(label, size)]
+            self.files[label] = size
+        return path, data
 
     def report(self, clause, why, case):
         self.by_clause[clause] = self.by_clause.get(clause, 0) + 1
